@@ -1,18 +1,36 @@
 (* C07 - compilation never crashes or hangs (partial: the part that is logic).  Statements only. *)
 From Sakura.Model Require Import Base Cursor Length Event Writer.
+From Sakura.Gen Require Import Consts.
 From Sakura.Spec Require Import TrackSpec.
-From Sakura.Proofs Require Import WriterP.
+From Sakura.Proofs Require Import WriterP NumeralP.
+From Coq Require Import Lia.
 
-(* calc_length is a total function: it returns an integer for every string, time base and default
-   (in the model nothing can panic or loop: the parts loop has fuel = characters left and every pass
-   consumes at least the '^'; the statement is that the result never depends on extra fuel) *)
-Theorem C07_calc_length_total : forall (s : list Z) (tb d : Z), exists v : Z, calc_length s tb d = v.
-Proof. intros. eexists. reflexivity. Qed.
+(* Every numeral read from ANY text - decimal, "0o" octal, "$" / "0x" hexadecimal, with or without a sign, however many
+   digits - lies within +-NUMERAL_MAX (2^31-1, generated from source_cursor.rs) unless the reader returns its default:
+   the arithmetic done on what was read (x 4 x timebase, x 10, sums of a few hundred terms) therefore stays far
+   inside 64 bits.  This is the model of the five `.min(NUMERAL_MAX)` sites (their number is generated too). *)
+Theorem C07_numerals_bounded : forall (def : Z) (s : list Z),
+  Z.abs (fst (get_int def s)) <= Z.max (Z.abs def) NUMERAL_MAX.
+Proof. exact get_int_bounded. Qed.
+
+Theorem C07_hex_numerals_bounded : forall (def : Z) (flag : bool) (s : list Z),
+  Z.abs (fst (get_hex def flag s)) <= Z.max (Z.abs def) NUMERAL_MAX.
+Proof. exact get_hex_bounded. Qed.
+
+(* capping every digit step equals capping the exact value once: a numeral means min(value, NUMERAL_MAX) *)
+Theorem C07_saturation_is_cap : forall (base : Z) (ds : list Z), 1 <= base -> Forall (fun d => 0 <= d) ds ->
+  horner_sat base 0 ds = Z.min (horner base 0 ds) NUMERAL_MAX.
+Proof. intros base ds Hb Hd. apply horner_sat_min; [exact Hb|exact Hd|]. pose proof numeral_max_pos. lia. Qed.
+
+Example C07_cap_sites : NUMERAL_CAPPED_SITES = 5 /\ NUMERAL_MAX = 2147483647.
+Proof. split; reflexivity. Qed.
 
 (* the track writer cannot panic on event lists whose data-carrying events have data (the only unwrap) *)
 Theorem C07_writer_total : forall evs : list event,
   forallb event_ok evs = true -> exists bs, write_events 0 evs = Ok bs.
 Proof. intros evs H. eexists. apply write_events_wire. exact H. Qed.
 
-Print Assumptions C07_calc_length_total.
+Print Assumptions C07_numerals_bounded.
+Print Assumptions C07_hex_numerals_bounded.
+Print Assumptions C07_saturation_is_cap.
 Print Assumptions C07_writer_total.
